@@ -70,3 +70,14 @@ Proof.
   exists y. auto.
 Qed.
 Print Assumptions C16_schema.
+
+(* Outside the property (it quantifies over texts ReadFile accepts): on `struct A { int32 a` - no `;`, end of input - the
+   formatter model never leaves its struct loop: it re-reads the kept token at every turn and only stops because the
+   precomputed results run out (PEnd); the implementation, whose Next() keeps answering `false`, does not return (DESIGN.md
+   section 9).  ReadFile rejects the text, and bebopfmt parses before it formats. *)
+From Coq Require Import NArith.
+Import ListNotations.
+Example C16_format_unbounded_outside_the_property :
+  format [115; 116; 114; 117; 99; 116; 32; 65; 32; 123; 32; 105; 110; 116; 51; 50; 32; 97]%N = PEnd /\
+  read_file [115; 116; 114; 117; 99; 116; 32; 65; 32; 123; 32; 105; 110; 116; 51; 50; 32; 97]%N false = PErr.
+Proof. split; vm_compute; reflexivity. Qed.
